@@ -16,6 +16,9 @@ EmitLine(rec) ==
 NChunks == atoi(IOEnv.VERIF_NCHUNKS)
 Chunk   == atoi(IOEnv.VERIF_CHUNK)
 
+(* VERIF_TIER=thorough enlarges the pools of the bounded models *)
+Thorough == IOEnv.VERIF_TIER = "thorough"
+
 NoArgs == [len |-> 0, ext |-> 0, ct |-> 0, ver |-> 0, sub |-> ""]
 
 CaseLine(id, fn, a, parts, expect, pin, note) ==
